@@ -163,6 +163,9 @@ func c09Spec_(seed uint64, mi int) c09Spec {
 // whose key pins a b5 digest: the side files are outside that digest, so their content is not judged then.
 var c09SideFilesTampered bool
 
+// c09SlowReader widens the window between the digest verification of an entry and the reading of its files.
+var c09SlowReader time.Duration
+
 var c09Logger = slog.New(slog.NewTextHandler(io.Discard, nil))
 
 type c09Store struct {
@@ -254,6 +257,10 @@ func c09VerifyData(c *core.C, md bufmodule.ModuleData, s c09Spec, key string) c0
 			return c09Outcome{"mismatch", derr.Error()}
 		}
 		return c09Outcome{"error", derr.Error()}
+	}
+	// a slow reader (hist clients): the digest was verified by Bucket(); the files are read a little later
+	if c09SlowReader > 0 {
+		time.Sleep(c09SlowReader)
 	}
 	// independent content check
 	content := map[string][]byte{}
@@ -1027,7 +1034,7 @@ func init() {
 		Run:         c09Run,
 		RaceCases:   func(tier string) int { return c09HistCases(tier) },
 		RunRace:     func(c *core.C, idx int) { c09Hist(c, idx, true) },
-		Required:    []string{"crash_runs", "kills_delivered", "faults_fired", "tamper_runs", "tamper_mismatch_required", "repairs_checked", "reads_found_correct", "reads_found_correct_b4", "side_files_verified", "reads_notfound", "reads_mismatch", "hist_histories", "lostrace_runs", "provider_values_checked", "provider_errors", "provider_lies_detected"},
+		Required:    []string{"crash_runs", "kills_delivered", "faults_fired", "tamper_runs", "tamper_mismatch_required", "repairs_checked", "exclusive_sections_observed", "reads_found_correct", "reads_found_correct_b4", "side_files_verified", "reads_notfound", "reads_mismatch", "hist_histories", "lostrace_runs", "provider_values_checked", "provider_errors", "provider_lies_detected"},
 		WatchdogSec: map[string]int{"quick": 1500, "thorough": 3 * 3600},
 	})
 }
